@@ -171,6 +171,7 @@ structure ErrCfg where
   nextWrites : Nat             -- bytes `ERROR_nexterror` itself stores at `ERROR_string` (0: it only steps over the terminator)
   spaceGuard : Option (Nat × Nat)   -- flush+exit when `ERROR_string + a > base + b`
   countGuard : Option Nat           -- flush+exit when `ERROR_with_lines == n`
+  fullContinues : Bool              -- a full buffer is flushed and started again (the run goes on) instead of flush+exit
   deriving Repr
 
 structure ErrState where
@@ -228,7 +229,10 @@ def errStep (c : ErrCfg) (s : ErrState) : ErrEv → Outcome ErrState
         | some u2 =>
           match errNext c u2 with
           | none => .overflow c.allocated
-          | some u3 => if m.fatal || spaceHit c u3 || countHit c idx then .reject else .ok ⟨u3, idx⟩
+          | some u3 =>
+            if m.fatal then .reject
+            else if spaceHit c u3 || countHit c idx then (if c.fullContinues then .ok ⟨0, 0⟩ else .reject)
+            else .ok ⟨u3, idx⟩
 
 def errRun (c : ErrCfg) (s : ErrState) : List ErrEv → Outcome ErrState
   | [] => .ok s
@@ -824,6 +828,7 @@ inductive RAct where
   | commit         -- ERROR_nexterror: the text becomes a stored message
   | setOccurred    -- ERRORoccurred = true
   | flush          -- ERROR_flush_message_buffer / ERRORflush_messages
+  | restart        -- ERROR_start_message_buffer: the buffer is emptied without being printed
   deriving Repr, DecidableEq
 
 structure RState where
@@ -833,9 +838,10 @@ structure RState where
   occurred : Bool     -- ERRORoccurred
   errIssued : Bool    -- a diagnostic of severity ≥ ERROR was issued
   trailer : Nat       -- "Errors in input" / "No errors in input" lines
+  lost : Nat          -- messages that were in the buffer when it was started again
   deriving Repr, DecidableEq
 
-def RState.init : RState := ⟨0, 0, false, false, false, 0⟩
+def RState.init : RState := ⟨0, 0, false, false, false, 0, 0⟩
 
 def RAct.step : RAct → RState → RState
   | .print, s => { s with printed := s.printed + 1 }
@@ -843,6 +849,7 @@ def RAct.step : RAct → RState → RState
   | .commit, s => if s.staged then { s with pending := s.pending + 1, staged := false } else s
   | .setOccurred, s => { s with occurred := true }
   | .flush, s => { s with printed := s.printed + s.pending, pending := 0 }
+  | .restart, s => { s with lost := s.lost + s.pending, pending := 0, staged := false }
 
 /-- the operations the interpreter needs -/
 structure Ops (σ : Type) where
@@ -863,12 +870,14 @@ inductive Stop where
   deriving Repr, DecidableEq
 
 /-- one reporting function (or one of its two modes): the branch for severity ≥ ERROR, the other branch, what is done
-before the abort()/exit( EXPRESS_fail ) decision, and whether that decision is also taken when the buffer is full -/
+before the abort()/exit( EXPRESS_fail ) decision, whether that decision is also taken when the buffer is full, and what is
+done for a full buffer otherwise -/
 structure ReportFn where
   errActs : List RAct
   warnActs : List RAct
   exitActs : List RAct
   alsoWhenFull : Bool
+  fullActs : List RAct       -- what is done when the buffer is full and the run goes on
   deriving Repr
 
 structure ExitDiscCfg where
@@ -932,6 +941,7 @@ def reportL (c : ExitDiscCfg) (buffered : Bool) (l : Lvl) (sym full : Bool) (s :
   if l.exit || (f.alsoWhenFull && full) then
     let s2 := runActs o f.exitActs s1
     if l.dump then (s2, some .aborted) else doFail o c s2
+  else if full then (runActs o f.fullActs s1, none)
   else (s1, none)
 
 def runLevels (c : ExitDiscCfg) (buffered : Bool) : List (Lvl × Bool × Bool) → σ → σ × Option Stop
